@@ -39,9 +39,17 @@ func main() {
 	}
 	p := &vdrive.Plan{
 		Scenarios:      cmd.VerifC20Scenarios(thorough),
-		QuickBounds:    []vsched.Bound{{0, 0}, {1, 0}, {2, 0}},
-		ThoroughBounds: []vsched.Bound{{0, 0}, {1, 0}, {2, 0}, {2, 1}, {3, 0}},
-		BudgetQuick:    70 * time.Second,
+		QuickBounds:    []vsched.Bound{{0, 0}, {1, 0}},
+		ThoroughBounds: []vsched.Bound{{0, 0}, {1, 0}, {1, 1}},
+		PerScenario: map[string]map[string][]vsched.Bound{
+			"R,S: fail* then staged":             {"quick": {{0, 0}, {1, 0}, {1, 1}}, "thorough": {{0, 0}, {1, 0}, {2, 1}, {3, 0}}},
+			"S,R: staged* then nonstaged":        {"thorough": {{0, 0}, {1, 0}, {1, 1}, {2, 0}}},
+			"R,S: staged then any* +relisten":    {"quick": {{0, 0}}},
+			"S,R: nonstaged then any* +relisten": {"quick": {{0, 0}}},
+			"R,S: fail* then fail*":              {"thorough": {{0, 0}, {1, 0}, {2, 1}, {3, 0}}},
+		},
+		Shards:         8, // each worker process pays ~1 s of package initialisation (the whole dae binary)
+		BudgetQuick:    75 * time.Second,
 		BudgetThorough: 16 * time.Minute,
 		Finish: func(r *vlib.Run) {
 			r.Set("model_paths", cmd.VerifC20ModelPaths())
